@@ -255,10 +255,10 @@ end Simplify
 def simplifyWith (argc : String → Option Nat) (e : Expr) : Option Expr :=
   (Simplify.simplifyBoth argc (e.size + 1) e).map (·.1)
 
-def simplify (e : Expr) : Option Expr := simplifyWith Simplify.tableArgc e
+/-- `api.Simplify` with the function table of the harness (`IsVariadic` folded in: `tableArgcV`) -/
+def simplify (e : Expr) : Option Expr := simplifyWith Simplify.tableArgcV e
 
-/-- `api.Simplify` with the function table of the C22 run, which has the variadic `collection` and
-`call`; on programs that do not mention them it is `simplify` -/
+/-- the same (kept for the C22 driver) -/
 def simplifyV (e : Expr) : Option Expr := simplifyWith Simplify.tableArgcV e
 
 end B6.Model
